@@ -16,19 +16,3 @@ func runMutants(repo, verif string, pd *propDef, verbose bool) int { return 0 }
 
 func mutantSweep(repo string, pd *propDef) *MutantResult { return nil }
 
-func ruleVersionNegotiation(c *Ctx) { pending(c, "ruleVersionNegotiation") }
-
-func ruleEnvVersionsOnly(c *Ctx) { pending(c, "ruleEnvVersionsOnly") }
-
-func ruleLogLevels(c *Ctx) { pending(c, "ruleLogLevels") }
-
-func ruleStdioWiring(c *Ctx) { pending(c, "ruleStdioWiring") }
-
-func ruleFresh(c *Ctx) { pending(c, "ruleFresh") }
-
-func ruleCopyChan(c *Ctx) { pending(c, "ruleCopyChan") }
-
-func ruleReattach(c *Ctx) { pending(c, "ruleReattach") }
-
-func ruleSentinelReattach(c *Ctx) { pending(c, "ruleSentinelReattach") }
-
